@@ -48,6 +48,7 @@ def plan(prop, tier):
     }
     sch = {'C02': f, 'C08': f, 'C09': b}.get(prop, both)
     P[prop].append(('L8', lambda: LY.L8(tier, sch)))
+    P[prop].append(('L7m', lambda: LY.L7m(tier, sch)))
     if prop in ('C07', 'C14', 'C04', 'C03'):
         P[prop].append(('L2n', lambda: LY.L2n(tier)))
     if prop != 'C09':
